@@ -406,6 +406,17 @@ def run_unwrap(case):
   if any(abs(v) > 1000 for v in x):
     return R(None, jumps, len(x))
   xf = [float(v) * 2.5 for v in x]
+  # one parameter left at its documented default (max_delta = pi, step = 2 pi) while the other is given
+  for st_ in (1.0, 2.0, 0.5, 7.0):
+    a, b = list(unwrap(list(xf), step=st_)), list(unwrap(list(xf), max_delta=math.pi, step=st_))
+    if a != b:
+      return bad("unwrap:default-max_delta", "unwrap(sig, step=%r) must use the documented default max_delta = pi" % st_,
+                 b, a)
+  for md_ in (1.0, 0.25, 4.0):
+    a, b = list(unwrap(list(xf), max_delta=md_)), list(unwrap(list(xf), max_delta=md_, step=2 * math.pi))
+    if a != b:
+      return bad("unwrap:default-step", "unwrap(sig, max_delta=%r) must use the documented default step = 2 pi" % md_,
+                 b, a)
   got = list(unwrap(list(xf)))
   for i in range(1, len(got)):
     if abs(got[i] - got[i - 1]) > math.pi + 1e-9:
